@@ -87,13 +87,13 @@ Definition enc_f (x : fl) : fl := if is_nan x then FNdv else x.        (* writer
 Definition dec_f (x : fl) : fl := if is_ndv x then FNaN else x.        (* reader *)
 
 Lemma dec_enc_f v : v <> FNdv -> dec_f (enc_f v) = v.
-Proof. destruct v; simpl; congruence. Qed.
+Proof. intros H. destruct v; unfold enc_f, dec_f; simpl; congruence. Qed.
 
 Lemma enc_f_not_nan v : enc_f v <> FNaN.
-Proof. destruct v; simpl; discriminate. Qed.
+Proof. destruct v; unfold enc_f; simpl; discriminate. Qed.
 
 Lemma enc_f_ndv_iff v : v <> FNdv -> (enc_f v = FNdv <-> v = FNaN).
-Proof. destruct v; simpl; intuition congruence. Qed.
+Proof. intros H. destruct v; unfold enc_f; simpl; intuition congruence. Qed.
 
 Lemma map_dec_enc_f l : ~ In FNdv l -> map dec_f (map enc_f l) = l.
 Proof.
@@ -135,4 +135,433 @@ Proof.
   rewrite format_values_float.
   - unfold l'. rewrite padded_idem. reflexivity.
   - intros Ha. unfold l'. rewrite padded_length by (apply Hlen; assumption). lia.
+Qed.
+
+(* ------------------------------------------------------------------ integer / referenced data *)
+Definition is_intcls (c : cls) : Prop := c = CInteger \/ c = CReferenced.
+
+Definition too_long (a : assoc) (n len : nat) : bool :=
+  match a with AVertex => (n <? len)%nat | AObject => false end.
+
+Lemma too_long_false a n len : too_long a n len = false <-> len_ok a n len.
+Proof.
+  unfold too_long, len_ok. destruct a.
+  - rewrite Nat.ltb_ge. split; [intros H _; exact H | intros H; apply H; reflexivity].
+  - split; [intros _ H; discriminate | reflexivity].
+Qed.
+
+Lemma forallb_app' {A} (f : A -> bool) l1 l2 : forallb f (l1 ++ l2) = forallb f l1 && forallb f l2.
+Proof. induction l1; simpl; [reflexivity|]. rewrite IHl1, andb_assoc. reflexivity. Qed.
+
+Lemma existsb_app' {A} (f : A -> bool) l1 l2 : existsb f (l1 ++ l2) = existsb f l1 || existsb f l2.
+Proof. induction l1; simpl; [reflexivity|]. rewrite IHl1, orb_assoc. reflexivity. Qed.
+
+Lemma forallb_repeat {A} (f : A -> bool) x k : f x = true -> forallb f (repeat x k) = true.
+Proof. intros H. induction k; simpl; [reflexivity|]. rewrite H, IHk. reflexivity. Qed.
+
+Lemma existsb_repeat {A} (f : A -> bool) x k : f x = false -> existsb f (repeat x k) = false.
+Proof. intros H. induction k; simpl; [reflexivity|]. rewrite H, IHk. reflexivity. Qed.
+
+Lemma existsb_frac_FInt l : existsb has_frac (map FInt l) = false.
+Proof. induction l; simpl; auto. Qed.
+
+Lemma forallb_range_FInt l : forallb f_in_range (map FInt l) = forallb in_int32b l.
+Proof. induction l; simpl; [reflexivity|]. rewrite IHl. reflexivity. Qed.
+
+Lemma map_f2i32_FInt l : forallb in_int32b l = true -> map f2i32 (map FInt l) = l.
+Proof.
+  induction l as [|z r IH]; simpl; [reflexivity|]. intros H. apply andb_true_iff in H as [H1 H2].
+  rewrite H1, IH by assumption. reflexivity.
+Qed.
+
+Lemma map_wrap32_idb l : forallb in_int32b l = true -> map wrap32 l = l.
+Proof. intros H. apply map_wrap32_id, forallb_in_int32, H. Qed.
+
+Lemma ndv_rangeb : in_int32b INTEGER_NDV = true.
+Proof. reflexivity. Qed.
+
+(* closed form of format_values on integer arrays, repaired code *)
+Lemma fv_int_cf c d a n l : is_intcls c ->
+  format_values Repaired c a n (AInt d l) =
+    if too_long a n (length l) then Err ValueErr
+    else if forallb in_int32b l then Ok (VI (padded l n INTEGER_NDV)) else Err ValueErr.
+Proof.
+  intros Hc. unfold format_values, format_length, too_long, padded.
+  assert (replace_nan c (AInt d l) = Ok (AInt d l)) as -> by (destruct Hc; subst; reflexivity).
+  simpl bind. simpl alen.
+  destruct (Nat.ltb_spec (length l) n) as [Hs|Hs].
+  - replace (match a with AVertex => (n <? length l)%nat | AObject => false end) with false
+      by (destruct a; [symmetry; apply Nat.ltb_ge; lia | reflexivity]).
+    simpl bind.
+    generalize (n - length l)%nat as k. intros k.
+    destruct Hc; subst c; destruct d; simpl;
+      rewrite ?existsb_app', ?forallb_app', ?existsb_frac_FInt, ?forallb_range_FInt, ?map_app, ?map_repeat';
+      rewrite ?existsb_repeat, ?forallb_repeat by reflexivity; rewrite ?andb_true_r; simpl;
+      destruct (forallb in_int32b l) eqn:E; try reflexivity;
+      rewrite ?map_f2i32_FInt, ?map_wrap32_idb by assumption; reflexivity.
+  - destruct (Nat.ltb_spec n (length l)) as [Hl|Hl].
+    + destruct a; simpl bind; [reflexivity|].
+      destruct Hc; subst c; simpl; destruct (forallb in_int32b l) eqn:E; try reflexivity;
+        rewrite map_wrap32_idb by assumption; reflexivity.
+    + replace (match a with AVertex => false | AObject => false end) with false by (destruct a; reflexivity).
+      simpl bind. destruct Hc; subst c; simpl; destruct (forallb in_int32b l) eqn:E; try reflexivity;
+        rewrite map_wrap32_idb by assumption; reflexivity.
+Qed.
+
+Lemma fetch_RI32 l : l <> [] -> fetch (RI32 l) = Ok (AInt I32 l).
+Proof. destruct l; [congruence|reflexivity]. Qed.
+
+Theorem int_roundtrip_in_range : forall c d a n l,
+  is_intcls c -> Forall in_int32 l -> len_ok a n (length l) -> (1 <= n)%nat ->
+  let l' := padded l n INTEGER_NDV in
+  run_num Repaired c a n (AInt d l) = ODone (VI l') (RI32 l') (VI l').
+Proof.
+  intros c d a n l Hc Hr Hlen Hn l'. unfold run_num, store.
+  rewrite fv_int_cf by assumption.
+  apply too_long_false in Hlen as Htl. rewrite Htl.
+  apply forallb_in_int32 in Hr as Hrb. rewrite Hrb. simpl bind. fold l'.
+  assert (Forall in_int32 l') as Hr' by (apply Forall_padded; [assumption | apply ndv_in_int32]).
+  change (write_values (VI l')) with (RI32 (map wrap32 l')). rewrite map_wrap32_id by assumption.
+  unfold reopen. rewrite fetch_RI32 by (apply padded_nonempty; assumption). simpl bind.
+  rewrite fv_int_cf by assumption.
+  assert (too_long a n (length l') = false) as ->.
+  { apply too_long_false. intros Ha. unfold l'. rewrite padded_length by (apply Hlen; assumption). lia. }
+  apply forallb_in_int32 in Hr'. rewrite Hr'. unfold l'. rewrite padded_idem. reflexivity.
+Qed.
+
+(* every integer array the repaired code accepts reads back identical, gaps as the integer no-data code *)
+Definition int_full (w : ver) : Prop :=
+  forall c d a n l v r v', is_intcls c -> (1 <= n)%nat ->
+    run_num w c a n (AInt d l) = ODone v r v' ->
+    v = VI (padded l n INTEGER_NDV) /\ r = RI32 (padded l n INTEGER_NDV) /\ v' = v.
+
+Theorem int_full_repaired : int_full Repaired.
+Proof.
+  intros c d a n l v r v' Hc Hn H.
+  destruct (too_long a n (length l)) eqn:Htl.
+  { unfold run_num, store in H. rewrite fv_int_cf, Htl in H by assumption. discriminate. }
+  destruct (forallb in_int32b l) eqn:Hr.
+  2:{ unfold run_num, store in H. rewrite fv_int_cf, Htl, Hr in H by assumption. discriminate. }
+  rewrite int_roundtrip_in_range in H; try assumption.
+  - inversion H; subst. auto.
+  - apply forallb_in_int32; assumption.
+  - apply too_long_false; assumption.
+Qed.
+
+Theorem int_old_refuted : ~ int_full Old.
+Proof.
+  intros H.
+  specialize (H CInteger I64 AVertex 1%nat [2147483648] (VI [-2147483648]) (RI32 [-2147483648]) (VI [-2147483648])
+                (or_introl eq_refl) (le_n 1) eq_refl).
+  destruct H as [H _]. discriminate H.
+Qed.
+
+(* the concrete pre-repair behaviour on the probe input *)
+Lemma int_old_wraps :
+  run_num Old CInteger AVertex 2 (AInt I64 [2147483648; 5]) = ODone (VI [-2147483648; 5]) (RI32 [-2147483648; 5]) (VI [-2147483648; 5]).
+Proof. reflexivity. Qed.
+
+Theorem int_out_of_range_rejected : forall c d a n l,
+  is_intcls c -> ~ Forall in_int32 l -> store Repaired c a n (AInt d l) = Err ValueErr.
+Proof.
+  intros c d a n l Hc Hr. unfold store. rewrite fv_int_cf by assumption.
+  destruct (too_long a n (length l)); [reflexivity|].
+  destruct (forallb in_int32b l) eqn:E; [|reflexivity].
+  exfalso. apply Hr, forallb_in_int32, E.
+Qed.
+
+(* floats given to an integer class *)
+Lemma replace_nan_keeps_frac c d l v :
+  In v l -> has_frac v = true -> In v (map (fun v => if is_nan v then put_nan c d else v) l).
+Proof.
+  intros Hin Hf. apply in_map_iff. exists v. split; [|assumption]. destruct v; simpl in *; try discriminate; reflexivity.
+Qed.
+
+Lemma existsb_true_in {A} (f : A -> bool) l v : In v l -> f v = true -> existsb f l = true.
+Proof. intros. apply existsb_exists. eauto. Qed.
+
+Theorem int_rejects_fractional : forall w c d a n l v,
+  is_intcls c -> In v l -> has_frac v = true ->
+  store w c a n (AFlt d l) = Err (if too_long a n (length l) then ValueErr else TypeErr).
+Proof.
+  intros w c d a n l v Hc Hin Hf. unfold store, format_values.
+  assert (replace_nan c (AFlt d l) = Ok (AFlt d (map (fun v => if is_nan v then put_nan c d else v) l))) as -> by reflexivity.
+  cbn [bind]. set (l1 := map _ l).
+  assert (In v l1) as Hin1 by (apply replace_nan_keeps_frac; assumption).
+  assert (length l1 = length l) as Hlen by (unfold l1; apply map_length).
+  unfold format_length, too_long. simpl alen. rewrite Hlen.
+  destruct (Nat.ltb_spec (length l) n) as [Hs|Hs].
+  - replace (match a with AVertex => (n <? length l)%nat | AObject => false end) with false
+      by (destruct a; [symmetry; apply Nat.ltb_ge; lia | reflexivity]).
+    cbn [bind].
+    assert (forall k, exists d' fill, pad_arr c k (AFlt d l1) = AFlt d' (l1 ++ repeat fill k)) as Hp.
+    { intros k. destruct Hc; subst c; simpl; eauto. }
+    destruct (Hp (n - length l)%nat) as (d' & fill & ->).
+    destruct Hc; subst c; simpl;
+      rewrite (existsb_true_in has_frac (l1 ++ repeat fill (n - length l)) v) by (try apply in_or_app; auto); reflexivity.
+  - destruct (Nat.ltb_spec n (length l)) as [Hl|Hl].
+    + destruct a; cbn [bind]; [reflexivity|].
+      destruct Hc; subst c; simpl; rewrite (existsb_true_in has_frac l1 v) by assumption; reflexivity.
+    + replace (match a with AVertex => false | AObject => false end) with false by (destruct a; reflexivity).
+      cbn [bind]. destruct Hc; subst c; simpl; rewrite (existsb_true_in has_frac l1 v) by assumption; reflexivity.
+Qed.
+
+Lemma reopen_int_padded c a n l :
+  is_intcls c -> Forall in_int32 l -> len_ok a n (length l) -> (1 <= n)%nat ->
+  reopen Repaired c a n (RI32 (padded l n INTEGER_NDV)) = Ok (VI (padded l n INTEGER_NDV)).
+Proof.
+  intros Hc Hr Hlen Hn. set (l' := padded l n INTEGER_NDV).
+  assert (Forall in_int32 l') as Hr' by (apply Forall_padded; [assumption | apply ndv_in_int32]).
+  unfold reopen. rewrite fetch_RI32 by (apply padded_nonempty; assumption). cbn [bind].
+  rewrite fv_int_cf by assumption.
+  assert (too_long a n (length l') = false) as ->.
+  { apply too_long_false. intros Ha. unfold l'. rewrite padded_length by (apply Hlen; assumption). lia. }
+  apply forallb_in_int32 in Hr'. rewrite Hr'. unfold l'. rewrite padded_idem. reflexivity.
+Qed.
+
+Definition fl_int_ok (v : fl) : Prop :=
+  match v with FNaN | FNegZero => True | FInt z => in_int32 z | _ => False end.
+Definition fl2z (v : fl) : Z := match v with FInt z => z | FNaN => INTEGER_NDV | _ => 0 end.
+
+Lemma fl_int_ok_elem v (v1 := if is_nan v then FInt INTEGER_NDV else v) :
+  fl_int_ok v -> has_frac v1 = false /\ f_in_range v1 = true /\ f2i32 v1 = fl2z v /\ in_int32 (fl2z v).
+Proof.
+  subst v1. destruct v; simpl; intros H; try contradiction.
+  - split; [reflexivity|]. split; [reflexivity|]. split; [reflexivity|]. apply ndv_in_int32.
+  - split; [reflexivity|]. split; [reflexivity|]. split; [reflexivity|]. unfold in_int32, INT_MIN, INT_MAX; lia.
+  - apply in_int32b_spec in H as Hb. split; [reflexivity|]. split; [assumption|]. split; [rewrite Hb; reflexivity | assumption].
+Qed.
+
+Lemma fl_int_ok_list l (l1 := map (fun v => if is_nan v then FInt INTEGER_NDV else v) l) :
+  Forall fl_int_ok l ->
+  existsb has_frac l1 = false /\ forallb f_in_range l1 = true /\ map f2i32 l1 = map fl2z l /\ Forall in_int32 (map fl2z l).
+Proof.
+  subst l1. induction 1 as [|v r Hv Hr IH]; simpl; [auto|].
+  destruct IH as (I1 & I2 & I3 & I4). destruct (fl_int_ok_elem v Hv) as (E1 & E2 & E3 & E4).
+  rewrite E1, E2, E3, I1, I2, I3. auto.
+Qed.
+
+Theorem int_from_float_roundtrip : forall c d a n l,
+  is_intcls c -> d <> F16 -> Forall fl_int_ok l -> len_ok a n (length l) -> (1 <= n)%nat ->
+  let l' := padded (map fl2z l) n INTEGER_NDV in
+  run_num Repaired c a n (AFlt d l) = ODone (VI l') (RI32 l') (VI l').
+Proof.
+  intros c d a n l Hc Hd Hok Hlen Hn l'.
+  destruct (fl_int_ok_list l Hok) as (E1 & E2 & E3 & E4).
+  assert (format_values Repaired c a n (AFlt d l) = Ok (VI l')) as Hfv.
+  { unfold format_values.
+    assert (replace_nan c (AFlt d l) = Ok (AFlt d (map (fun v => if is_nan v then FInt INTEGER_NDV else v) l))) as ->.
+    { destruct Hc; subst c; destruct d; try congruence; reflexivity. }
+    cbn [bind]. set (l1 := map (fun v => if is_nan v then FInt INTEGER_NDV else v) l) in *.
+    assert (length l1 = length l) as Hl1 by (unfold l1; apply map_length).
+    unfold format_length. simpl alen. rewrite Hl1. unfold l', padded. rewrite map_length.
+    destruct (Nat.ltb_spec (length l) n) as [Hs|Hs].
+    - cbn [bind].
+      assert (pad_arr c (n - length l) (AFlt d l1) = AFlt F64 (l1 ++ repeat (FInt INTEGER_NDV) (n - length l))) as ->
+        by (destruct Hc; subst c; reflexivity).
+      destruct Hc; subst c; simpl;
+        rewrite existsb_app', forallb_app', E1, E2, map_app, E3, map_repeat',
+          existsb_repeat, forallb_repeat by reflexivity; reflexivity.
+    - assert ((if (n <? length l)%nat then match a with AObject => Ok (AFlt d l1) | AVertex => Err ValueErr end else Ok (AFlt d l1))
+              = Ok (AFlt d l1)) as ->.
+      { destruct (Nat.ltb_spec n (length l)); [|reflexivity]. destruct a; [|reflexivity]. specialize (Hlen eq_refl). lia. }
+      cbn [bind]. destruct Hc; subst c; simpl; rewrite E1, E2, E3; reflexivity. }
+  unfold run_num, store. rewrite Hfv. cbn [bind].
+  assert (Forall in_int32 l') as Hr' by (apply Forall_padded; [assumption | apply ndv_in_int32]).
+  change (write_values (VI l')) with (RI32 (map wrap32 l')). rewrite map_wrap32_id by assumption.
+  unfold l'. rewrite reopen_int_padded; try assumption; [reflexivity|]. rewrite map_length. assumption.
+Qed.
+
+Theorem int_rejects_infinite : forall c d a n l s,
+  is_intcls c -> In (FInf s) l -> exists e, store Repaired c a n (AFlt d l) = Err e.
+Proof.
+  intros c d a n l s Hc Hin. unfold store, format_values.
+  assert (replace_nan c (AFlt d l) = Ok (AFlt d (map (fun v => if is_nan v then put_nan c d else v) l))) as -> by reflexivity.
+  cbn [bind]. set (l1 := map _ l).
+  assert (In (FInf s) l1) as Hin1 by (apply in_map_iff; exists (FInf s); split; [reflexivity | assumption]).
+  assert (forall l2, In (FInf s) l2 -> forallb f_in_range l2 = false) as Hf.
+  { intros l2 H2. destruct (forallb f_in_range l2) eqn:E; [|reflexivity].
+    rewrite forallb_forall in E. specialize (E _ H2). discriminate. }
+  destruct (format_length c a n (AFlt d l1)) as [x2|e] eqn:Efl; [|eexists; reflexivity].
+  cbn [bind].
+  assert (exists d' l2, x2 = AFlt d' l2 /\ In (FInf s) l2) as (d' & l2 & -> & Hin2).
+  { unfold format_length in Efl. simpl alen in Efl.
+    destruct (length l1 <? n)%nat.
+    - inversion Efl. destruct Hc; subst c; simpl; do 2 eexists; split; try reflexivity; apply in_or_app; auto.
+    - destruct (n <? length l1)%nat; [destruct a; inversion Efl|inversion Efl]; eauto. }
+  destruct Hc; subst c; simpl; destruct (existsb has_frac l2); try (eexists; reflexivity);
+    rewrite (Hf l2 Hin2); eexists; reflexivity.
+Qed.
+
+(* ------------------------------------------------------------------ boolean data *)
+Lemma wrap8_b2z b : wrap8 (b2z b) = b2z b.
+Proof. destruct b; reflexivity. Qed.
+
+Lemma forallb_is01_b2z l : forallb is01_z (map b2z l) = true.
+Proof. induction l as [|b r IH]; simpl; [reflexivity|]. rewrite IH. destruct b; reflexivity. Qed.
+
+Lemma map_nz_b2z l : map (fun z => negb (z =? 0)) (map b2z l) = l.
+Proof. induction l as [|b r IH]; simpl; [reflexivity|]. rewrite IH. destruct b; reflexivity. Qed.
+
+Lemma format_values_bool w a n l :
+  len_ok a n (length l) -> format_values w CBoolean a n (ABool l) = Ok (VB (padded l n false)).
+Proof.
+  intros Hlen. unfold format_values. simpl replace_nan. cbn [bind]. unfold format_length, padded. simpl alen.
+  destruct (Nat.ltb_spec (length l) n) as [Hs|Hs].
+  - cbn [bind]. simpl. rewrite forallb_app', forallb_is01_b2z, forallb_repeat by reflexivity. simpl.
+    rewrite map_app, map_nz_b2z, map_repeat'. reflexivity.
+  - destruct (Nat.ltb_spec n (length l)); [|reflexivity]. destruct a; [|reflexivity]. specialize (Hlen eq_refl). lia.
+Qed.
+
+Lemma format_values_bool_i8 w a n l :
+  len_ok a n (length l) -> (n <= length l)%nat -> format_values w CBoolean a n (AInt I8 (map b2z l)) = Ok (VB l).
+Proof.
+  intros Hlen Hge. unfold format_values. simpl replace_nan. cbn [bind]. unfold format_length. simpl alen. rewrite map_length.
+  assert ((length l <? n)%nat = false) as -> by (apply Nat.ltb_ge; assumption).
+  assert ((if (n <? length l)%nat then match a with AObject => Ok (AInt I8 (map b2z l)) | AVertex => Err ValueErr end
+           else Ok (AInt I8 (map b2z l))) = Ok (AInt I8 (map b2z l))) as ->.
+  { destruct (Nat.ltb_spec n (length l)); [|reflexivity]. destruct a; [|reflexivity]. specialize (Hlen eq_refl). lia. }
+  cbn [bind]. simpl. rewrite forallb_is01_b2z, map_nz_b2z. reflexivity.
+Qed.
+
+Theorem bool_roundtrip : forall w a n l,
+  len_ok a n (length l) -> (1 <= n)%nat ->
+  let l' := padded l n false in
+  run_num w CBoolean a n (ABool l) = ODone (VB l') (RI8 (map b2z l')) (VB l').
+Proof.
+  intros w a n l Hlen Hn l'. unfold run_num, store. rewrite format_values_bool by assumption. cbn [bind]. fold l'.
+  assert (write_values (VB l') = RI8 (map b2z l')) as ->.
+  { simpl. f_equal. apply map_ext. intros b. apply wrap8_b2z. }
+  unfold reopen.
+  assert (fetch (RI8 (map b2z l')) = Ok (AInt I8 (map b2z l'))) as ->.
+  { destruct l' eqn:E; [|reflexivity]. exfalso. revert E. apply padded_nonempty. assumption. }
+  cbn [bind]. rewrite format_values_bool_i8; [reflexivity | |apply padded_length_ge].
+  intros Ha. unfold l'. rewrite padded_length by (apply Hlen; assumption). lia.
+Qed.
+
+(* whatever a BooleanData accepts is held as booleans and stored as int8 zeros and ones *)
+Theorem bool_only_01 : forall w a n x v r,
+  store w CBoolean a n x = Ok (v, r) ->
+  exists bl, v = VB bl /\ r = RI8 (map b2z bl) /\ Forall (fun z => z = 0 \/ z = 1) (map b2z bl).
+Proof.
+  intros w a n x v r H. unfold store, format_values in H.
+  destruct (replace_nan CBoolean x) as [x1|e]; [|discriminate]. cbn [bind] in H.
+  destruct (format_length CBoolean a n x1) as [x2|e]; [|discriminate]. cbn [bind] in H.
+  assert ((exists bl, format_type w CBoolean x2 = Ok (VB bl)) \/ exists e, format_type w CBoolean x2 = Err e) as Hft.
+  { destruct x2; simpl; try (right; eexists; reflexivity);
+      try (match goal with |- context [if ?b then _ else _] => destruct b end); eauto. }
+  destruct Hft as [[bl Hft]|[e Hft]]; rewrite Hft in H; [|discriminate]. cbn [bind] in H. inversion H; subst.
+  exists bl. split; [reflexivity|]. split.
+  - simpl. f_equal. apply map_ext. intros b. apply wrap8_b2z.
+  - apply Forall_forall. intros z Hz. apply in_map_iff in Hz as (b & <- & _). destruct b; auto.
+Qed.
+
+Lemma forallb_false_in {A} (f : A -> bool) l v : In v l -> f v = false -> forallb f l = false.
+Proof.
+  intros Hin Hf. destruct (forallb f l) eqn:E; [|reflexivity]. rewrite forallb_forall in E. rewrite (E _ Hin) in Hf. discriminate.
+Qed.
+
+Theorem bool_rejects_non01_int : forall w d a n l z,
+  In z l -> z <> 0 -> z <> 1 -> store w CBoolean a n (AInt d l) = Err ValueErr.
+Proof.
+  intros w d a n l z Hin H0 H1. unfold store, format_values. simpl replace_nan. cbn [bind].
+  assert (is01_z z = false) as Hz.
+  { unfold is01_z. apply orb_false_iff. split; apply Z.eqb_neq; assumption. }
+  unfold format_length. simpl alen.
+  destruct (length l <? n)%nat.
+  - cbn [bind]. simpl. rewrite (forallb_false_in is01_z (l ++ repeat 0 (n - length l)) z); auto. apply in_or_app; auto.
+  - destruct (n <? length l)%nat; [destruct a|]; cbn [bind]; try reflexivity;
+      simpl; rewrite (forallb_false_in is01_z l z); auto.
+Qed.
+
+Theorem bool_rejects_non01_float : forall w d a n l v,
+  In v l -> is_nan v = false -> is01_f v = false -> store w CBoolean a n (AFlt d l) = Err ValueErr.
+Proof.
+  intros w d a n l v Hin Hn H01. unfold store, format_values.
+  assert (replace_nan CBoolean (AFlt d l) = Ok (AFlt d (map (fun v => if is_nan v then FInt 0 else v) l))) as -> by reflexivity.
+  cbn [bind]. set (l1 := map _ l).
+  assert (In v l1) as Hin1 by (apply in_map_iff; exists v; rewrite Hn; auto).
+  unfold format_length. simpl alen.
+  destruct (length l1 <? n)%nat.
+  - cbn [bind]. simpl. rewrite (forallb_false_in is01_f (l1 ++ repeat (FInt 0) (n - length l1)) v); auto. apply in_or_app; auto.
+  - destruct (n <? length l1)%nat; [destruct a|]; cbn [bind]; try reflexivity;
+      simpl; rewrite (forallb_false_in is01_f l1 v); auto.
+Qed.
+
+(* ------------------------------------------------------------------ length and type refusals *)
+Lemma alen_replace_nan c x x1 : replace_nan c x = Ok x1 -> alen x1 = alen x.
+Proof.
+  destruct x; simpl; try (destruct c); intros H; inversion H; simpl; rewrite ?map_length; reflexivity.
+Qed.
+
+Theorem too_long_rejected : forall w c n x,
+  (n < alen x)%nat -> store w c AVertex n x = Err ValueErr.
+Proof.
+  intros w c n x Hn. unfold store, format_values.
+  destruct (replace_nan c x) as [x1|e] eqn:E.
+  - cbn [bind]. unfold format_length. rewrite (alen_replace_nan _ _ _ E).
+    assert ((alen x <? n)%nat = false) as -> by (apply Nat.ltb_ge; lia).
+    assert ((n <? alen x)%nat = true) as -> by (apply Nat.ltb_lt; assumption). reflexivity.
+  - destruct x; simpl in E; try (destruct c); inversion E; try reflexivity; simpl in Hn; lia.
+Qed.
+
+Theorem unsupported_type_rejected :
+  (forall w c a n, store w c a n AObj = Err TypeErr)
+  /\ (forall c a n l, c <> CBoolean -> exists e, store Repaired c a n (ACplx l) = Err e)
+  /\ (forall w a n l, length l = n -> store w CFloat a n (ABool l) = Err TypeErr)
+  /\ (forall l, infer (ACplx l) = Err NotImplementedErr) /\ infer AObj = Err NotImplementedErr.
+Proof.
+  repeat split; try reflexivity.
+  - intros c a n l Hc. unfold store, format_values. simpl replace_nan. cbn [bind].
+    destruct (format_length c a n (ACplx _)) as [x2|e] eqn:E; [|eexists; reflexivity]. cbn [bind].
+    assert (exists l2, x2 = ACplx l2) as (l2 & ->).
+    { unfold format_length in E. simpl alen in E.
+      destruct (_ <? n)%nat; [inversion E; simpl; eauto|].
+      destruct (n <? _)%nat; [destruct a|]; inversion E; eauto. }
+    destruct c; try congruence; simpl; eexists; reflexivity.
+  - intros w a n l Hl. unfold store, format_values. simpl replace_nan. cbn [bind]. unfold format_length. simpl alen.
+    rewrite Hl, Nat.ltb_irrefl. reflexivity.
+Qed.
+
+Lemma complex_old_drops_imag :
+  run_num Old CFloat AVertex 1 (ACplx [(FInt 1, FInt 2)]) = ODone (VF [FInt 1]) (RF64 [FInt 1]) (VF [FInt 1]).
+Proof. reflexivity. Qed.
+
+(* per class: what is held and what dtype / codes reach the file *)
+Theorem store_kind : forall w c a n x v r,
+  store w c a n x = Ok (v, r) ->
+  match c with
+  | CFloat => exists l, v = VF l /\ r = RF64 (map enc_f l) /\ ~ In FNaN (map enc_f l)
+  | CInteger | CReferenced => exists l, v = VI l /\ r = RI32 (map wrap32 l) /\ Forall in_int32 (map wrap32 l)
+  | CBoolean => exists l, v = VB l /\ r = RI8 (map b2z l)
+  end.
+Proof.
+  intros w c a n x v r H. destruct c.
+  - unfold store, format_values in H.
+    destruct (replace_nan CFloat x) as [x1|e]; [|discriminate]. cbn [bind] in H.
+    destruct (format_length CFloat a n x1) as [x2|e]; [|discriminate]. cbn [bind] in H.
+    assert ((exists l, format_type w CFloat x2 = Ok (VF l)) \/ exists e, format_type w CFloat x2 = Err e) as [[l Hft]|[e Hft]].
+    { destruct x2; simpl; try destruct w; eauto. }
+    2:{ rewrite Hft in H. discriminate. }
+    rewrite Hft in H. cbn [bind] in H. inversion H; subst. exists l. repeat split.
+    intros Hin. apply in_map_iff in Hin as (v & Hv & _). revert Hv. apply enc_f_not_nan.
+  - unfold store, format_values in H.
+    destruct (replace_nan CInteger x) as [x1|e]; [|discriminate]. cbn [bind] in H.
+    destruct (format_length CInteger a n x1) as [x2|e]; [|discriminate]. cbn [bind] in H.
+    assert ((exists l, format_type w CInteger x2 = Ok (VI l)) \/ exists e, format_type w CInteger x2 = Err e) as [[l Hft]|[e Hft]].
+    { destruct x2; simpl; try destruct w; try (match goal with |- context [if ?b then _ else _] => destruct b end);
+        try (match goal with |- context [if ?b then _ else _] => destruct b end); eauto. }
+    2:{ rewrite Hft in H. discriminate. }
+    rewrite Hft in H. cbn [bind] in H. inversion H; subst. exists l. repeat split.
+    apply Forall_forall. intros z Hz. apply in_map_iff in Hz as (z0 & <- & _). apply wrap32_range.
+  - unfold store, format_values in H.
+    destruct (replace_nan CReferenced x) as [x1|e]; [|discriminate]. cbn [bind] in H.
+    destruct (format_length CReferenced a n x1) as [x2|e]; [|discriminate]. cbn [bind] in H.
+    assert ((exists l, format_type w CReferenced x2 = Ok (VI l)) \/ exists e, format_type w CReferenced x2 = Err e) as [[l Hft]|[e Hft]].
+    { destruct x2; simpl; try destruct w; try (match goal with |- context [if ?b then _ else _] => destruct b end);
+        try (match goal with |- context [if ?b then _ else _] => destruct b end); eauto. }
+    2:{ rewrite Hft in H. discriminate. }
+    rewrite Hft in H. cbn [bind] in H. inversion H; subst. exists l. repeat split.
+    apply Forall_forall. intros z Hz. apply in_map_iff in Hz as (z0 & <- & _). apply wrap32_range.
+  - destruct (bool_only_01 _ _ _ _ _ _ H) as (bl & -> & -> & _). eauto.
 Qed.
